@@ -242,8 +242,8 @@ def evaluate(driver, lines, timeout=3600):
             res.append(dict(case=line, eq=False, spec='NA', model='driver-crash:' + o[:200] + p.stderr.decode('utf-8', 'replace')[-300:], why='', tags=[]))
             continue
         spec, why = m.group(2), m.group(4) or ''
-        if spec == 'FAIL' and why.startswith('[') and pid and not why.startswith('[' + pid + ']'):
-            spec = 'PASS'   # a verdict about another property; that property's own check reports it
+        if spec == 'FAIL' and why.startswith('[') and pid and ']' in why and pid not in why[1:why.index(']')].split(','):
+            spec = 'PASS'   # a verdict about other properties only; their own checks report it
         res.append(dict(case=line, eq=m.group(1) == 'EQ', spec=spec, model=m.group(3), why=why,
                         tags=[t for t in (m.group(5) or '').split(',') if t]))
     return res
